@@ -726,6 +726,11 @@ pub fn fuzz_domain(c: &mut Case) -> bool {
     true
 }
 
+/// cases decoded from byte strings (see `engine::decoded_strategy`)
+pub fn bytes_strategy(_tier: Tier) -> BoxedStrategy<Case> {
+    decoded_strategy(fuzz_domain)
+}
+
 pub fn property() -> Property {
     Property {
         id: "C02",
@@ -736,7 +741,7 @@ pub fn property() -> Property {
         ],
         both_profiles: true,
         subs: vec![
-            sub_fuzz("stable/history", 240_000, 3_000_000, strategy, run, fuzz_domain),
+            sub_fuzz("stable/history", 240_000, 3_000_000, strategy, run, fuzz_domain), sub("stable/history-from-bytes", 150_000, 3_000_000, bytes_strategy, run),
             sub("stable/u8-capacity", 8_000, 200_000, capacity_strategy, run),
         ],
     }
